@@ -15,10 +15,14 @@ hooks = []
 hp = os.path.join(V, "MANIFEST.hooks")
 if os.path.exists(hp):
     hooks = [l.split()[0] for l in open(hp) if l.strip() and not l.startswith("#")]
+inprog = set()
+ipp = os.path.join(V, "lib", "in_progress.txt")
+if os.path.exists(ipp):
+    inprog = {l.strip() for l in open(ipp) if l.strip() and not l.startswith("#")}
 checks, na = [], []
 for P in allp:
     i = P["id"]
-    if i in props and not props[i].get("disabled"):
+    if i in props and not props[i].get("disabled") and i not in inprog:
         e = props[i]
         checks.append({
             "property_id": i,
